@@ -116,6 +116,36 @@ def origin_axes(ctx, ht):
         raise AnalysisError('regenerate_header: fewer than 3 origin fields found')
 
 
+def _range_component(f, e, depth=0):
+    """(range text, 0|1) when e is the lower / upper component of a two-element crop range: R[0] / R[1], or a name
+    unpacked from R (`lo, hi = R`), or a name bound to one of those."""
+    if e is None or depth > 3:
+        return None
+    if isinstance(e, ast.Subscript) and isinstance(e.slice, ast.Constant) and e.slice.value in (0, 1):
+        return (U(e.value), e.slice.value)
+    if isinstance(e, ast.Name):
+        defs = []
+        for a in ast.walk(f.node):
+            if isinstance(a, ast.Assign) and len(a.targets) == 1:
+                t = a.targets[0]
+                if isinstance(t, ast.Name) and t.id == e.id:
+                    defs.append(('whole', a.value))
+                elif isinstance(t, ast.Tuple) and any(isinstance(x, ast.Name) and x.id == e.id for x in t.elts):
+                    k = [isinstance(x, ast.Name) and x.id == e.id for x in t.elts].index(True)
+                    defs.append((k, a.value, len(t.elts)))
+        if len(defs) != 1:
+            return None
+        d = defs[0]
+        if d[0] == 'whole':
+            return _range_component(f, d[1], depth + 1)
+        k, v, n_ = d
+        if isinstance(v, ast.Tuple) and len(v.elts) == n_:
+            return _range_component(f, v.elts[k], depth + 1)
+        if n_ == 2 and isinstance(v, (ast.Name, ast.Attribute)):
+            return (U(v), k)
+    return None
+
+
 def footer_crop(ctx):
     P = ctx.P
     f = P.func('cropping.SgzCropper.write_cropped_file_by_indexes')
@@ -124,10 +154,13 @@ def footer_crop(ctx):
         if isinstance(s, ast.Subscript) and isinstance(s.slice, ast.Tuple) and len(s.slice.elts) == 2 and \
                 all(isinstance(e, ast.Slice) for e in s.slice.elts) and 'header' in U(s.value):
             n += 1
-            a0 = {axis_of_text(U(x)) for x in (s.slice.elts[0].lower, s.slice.elts[0].upper)}
-            a1 = {axis_of_text(U(x)) for x in (s.slice.elts[1].lower, s.slice.elts[1].upper)}
-            same0 = U(s.slice.elts[0].lower).replace('[0]', '') == U(s.slice.elts[0].upper).replace('[1]', '')
-            same1 = U(s.slice.elts[1].lower).replace('[0]', '') == U(s.slice.elts[1].upper).replace('[1]', '')
+            comps = [[_range_component(f, x) for x in (el.lower, el.upper)] for el in s.slice.elts]
+            if any(c is None for cs in comps for c in cs):
+                raise AnalysisError('footer crop `%s`: a bound is not a component of a crop range' % U(s)[:70])
+            a0 = {axis_of_text(c[0]) for c in comps[0]}
+            a1 = {axis_of_text(c[0]) for c in comps[1]}
+            same0 = comps[0][0][0] == comps[0][1][0] and (comps[0][0][1], comps[0][1][1]) == (0, 1)
+            same1 = comps[1][0][0] == comps[1][1][0] and (comps[1][0][1], comps[1][1][1]) == (0, 1)
             # the array was reshaped (n_ilines, n_xlines)
             shp = [c for c in ast.walk(f.node) if isinstance(c, ast.Call) and isinstance(c.func, ast.Attribute) and
                    c.func.attr == 'reshape']
@@ -156,9 +189,10 @@ def validation(ctx):
         paths = fm.paths_at(e.call)
         missing = set()
         for facts in paths:
-            need = {'0 <= lo': ('<=', '0', rng + '[0]') in facts,
-                    'hi <= %s' % ext.get(ax, '?'): ('<=', rng + '[1]', ext.get(ax, '?')) in facts,
-                    'lo < hi': ('<', rng + '[0]', rng + '[1]') in facts}
+            from ..facts import holds
+            need = {'0 <= lo': holds(facts, '<=', '0', rng + '[0]'),
+                    'hi <= %s' % ext.get(ax, '?'): holds(facts, '<=', rng + '[1]', ext.get(ax, '?')),
+                    'lo < hi': holds(facts, '<', rng + '[0]', rng + '[1]')}
             missing |= {k for k, ok in need.items() if not ok}
         if not paths:
             ctx.fail('C10.5', v, e.call, 'alignment of %s is unreachable' % rng)
